@@ -11,6 +11,7 @@ import json
 import os
 
 from mbt import engine
+from drivers import common as _common
 from drivers import c08
 from drivers.common import kind_of, run_async
 
@@ -78,7 +79,7 @@ def replay(item):
         errs2 = Validator(schema=None).validate(doc2, strict=False, section_schemas={sdef.name: sdef})
         doc2, log2 = repair(doc2, errs2, fix=fix, schema=sdef)
         entry("repair_api", fix, t1, [e.to_dict() for e in log.repairs], emit(doc2), [e.to_dict() for e in log2.repairs])
-    vt = ValidateTool()
+    vt = _common.tool("validate")
     for fix in (False, True):
         r = run_async(vt.execute(content=text, schema=name, fix=fix))
         log = [x for x in r.get("repairs", []) if isinstance(x, dict) and x.get("tier") is not None]
@@ -89,7 +90,7 @@ def replay(item):
     r = run_async(vt.execute(content=text, schema=name, fix=False))
     log = [x for x in r.get("repairs", []) if isinstance(x, dict) and x.get("tier") is not None]
     entry("octave_validate_off_after_on", False, r["canonical"], log)
-    wt = WriteTool()
+    wt = _common.tool("write")
     p = os.path.join(d, "r%d.oct.md" % os.getpid())
     if os.path.exists(p):
         os.unlink(p)
